@@ -7,6 +7,11 @@ def proj_rec(op, s):
         return "reject"
     return s
 
+def proj_c11(op, s):
+    if op == "schnorr_verify" and s.startswith("err "):
+        return "reject"
+    return s
+
 def proj_c08(op, s):
     if op == "pubkey_parse" and s.startswith("err "):
         return "reject"
@@ -79,6 +84,21 @@ def c17_race_run(ctx, tier, seed):
         shutil.rmtree(hb, ignore_errors=True)
 
 PROPS = {
+    "C11": {
+        "project": proj_c11,
+        "level_text": "Theorems (Lean 4 kernel) about a model of schnorr/signature.go with BLAKE-256 as a parameter: verification returns nil EXACTLY when m is 32 bytes, Q is on the curve, e = BLAKE-256(r||m) < N and s*G + e*Q is a finite point with even y and x = r (conditional on PointSpec); signing with a given nonce is the README algorithm (nonce negated when R.y is odd, e >= N reported, s = k - e*d); Sign refuses zero keys and wrong message lengths; the 64-byte codec accepts exactly length 64 with r < P, s < N and round-trips. Correspondence (BLAKE-256 answered from an oracle table filled by the real implementation): produced signatures, tampered r/s/m, wrong and off-curve keys, all message lengths, forced nonces through a hook incl. odd-y R and the nonce-not-negated variant, r >= P and s >= N encodings; each verification also compared with a textbook verifier over the affine specification.",
+        "level_note": "Conditional on PointSpec for the point-level theorems. BLAKE-256 is a parameter: its correctness is trusted; the e >= N retry branch (probability 2^-128) is covered by the theorem about the model and by the extracted control flow, not by a real-code execution. 'a produced signature verifies' is exercised on every produced signature by the run.",
+        "technique": "Lean 4 proof (Secp.Props.C11, partly conditional on PointSpec) + differential correspondence with an oracle-table hash",
+        "trusted_base": COMMON_TRUST + ["hand-written model mirrors the Go control flow; its point operations are the regenerated formula programs", "PointSpec (C03/C04 layer) is assumed by the theorems about points and validated on every run against the independent affine specification"] + ["BLAKE-256 implementation (oracle)"],
+        "assumptions": ["PointSpec", "BLAKE-256 returns 32 bytes"],
+    },
+    "C14": {
+        "level_text": "Theorems (Lean 4 kernel): for all private keys a, b in [1,N-1], the secret computed from a and b*G is the 32-byte x coordinate of (a*b mod N)*G, hence both sides agree; every such private key has a finite on-curve public key. The group algebra is done in Mathlib's elliptic-curve group through the proven bridge (toE, order of G = N); the tie to the code's ScalarMult/ToAffine is PointSpec. Correspondence: both directions for random and boundary key pairs with the peer key obtained four ways (derived, parsed compressed, parsed uncompressed, parsed hybrid) against the model and the affine specification.",
+        "level_note": "Conditional on PointSpec. Independence of key provenance follows from C08 (parsing returns the same normalised (x, y)) and is exercised by the four-encodings generator.",
+        "technique": "Lean 4 proof in Mathlib's curve group via a proven bridge (Secp.Props.C14, conditional on PointSpec) + differential correspondence",
+        "trusted_base": COMMON_TRUST + ["hand-written model mirrors the Go control flow; its point operations are the regenerated formula programs", "PointSpec (C03/C04 layer) is assumed by the theorems about points and validated on every run against the independent affine specification"],
+        "assumptions": ["PointSpec"],
+    },
     "C10": {
         "level_text": "Machine-checked theorems (Lean 4 kernel, no axioms beyond propext/Quot.sound/choice) about a statement-by-statement model of nonce.go: the resettable hmacsha256 object returns HMAC-SHA256(k, data written since the last (Re)set) after newHMACSHA256/ResetKey/Reset in any state (invariant: ipad/opad are the pads of k); the key buffer is key||hash[||extra[||version]] with exactly the documented padding/truncation/zero-fill rules; NonceRFC6979 returns the (i+1)-th candidate in [1,N-1] of the RFC 6979 section 3.2 generator (spec written from the RFC) for every key, hash, extra, version and i; results are in range; Schnorr's tagged key material differs from ECDSA's for every (key, hash). SHA-256 is treated as an arbitrary function of fixed output length. Correspondence: the grid key 0..40 x hash 0..70 x extra {0,31,32,33} x version {0,15,16,17} x i <= 16 in shuffled call orders with repeats (purity), random operation sequences on the HMAC object through a hook, and the Lean SHA-256 against crypto/sha256 around the padding boundaries.",
         "level_note": "Trusted: Lean kernel; crypto/sha256 (the Lean SHA-256 is diffed against it; the theorems hold for any compression function); the hand-written model mirrors nonce.go (validated on generated inputs). 'ECDSA and Schnorr nonces differ' is proved as 'the generators are keyed with different material'; that HMAC outputs then differ is a property of SHA-256. The candidate loop is modelled with fuel.",
